@@ -11,6 +11,8 @@ fn setup(ctx: &mut Ctx) {
     ctx.floor("err:missing-nul", 100);
     ctx.floor("err:utf8", 100);
     ctx.floor("offset=usize::MAX", 10);
+    #[cfg(target_pointer_width = "64")]
+    ctx.floor("offset>=2^32-with-low-bits-in-table", 1000);
 }
 
 const ALPHABET: [u8; 4] = [0x00, b'a', 0xC3, 0xA9];
@@ -137,6 +139,14 @@ fn run(ctx: &mut Ctx, si: usize, case: u64) {
             for off in (0..=table.len() + 2).chain([usize::MAX - 1, usize::MAX]) {
                 check_lookup(ctx, &table, off);
             }
+            // offsets beyond 2^32 whose low bits fall inside the table (64-bit targets)
+            #[cfg(target_pointer_width = "64")]
+            for hi in [1usize << 32, 1 << 33, 0xffff_ffff << 32, 1 << 63] {
+                for lo in 0..=table.len() {
+                    ctx.count("offset>=2^32-with-low-bits-in-table");
+                    check_lookup(ctx, &table, hi | lo);
+                }
+            }
         }
         _ => {
             let len = match ctx.rng.below(4) {
@@ -174,6 +184,11 @@ fn run(ctx: &mut Ctx, si: usize, case: u64) {
                     2 => len.wrapping_sub(1),
                     3 => len + 1 + ctx.rng.usize_below(5),
                     4 => usize::MAX - ctx.rng.usize_below(4),
+                    #[cfg(target_pointer_width = "64")]
+                    5 => {
+                        ctx.count("offset>=2^32-with-low-bits-in-table");
+                        ((1 + ctx.rng.usize_below(0xffff)) << [32usize, 40, 48][ctx.rng.usize_below(3)]) | ctx.rng.usize_below(len + 1)
+                    }
                     _ => ctx.rng.usize_below(len + 1),
                 };
                 check_lookup(ctx, &table, off);
